@@ -85,7 +85,7 @@ def bounds(tier):
     q = tier == "quick"
     return {
         "aseq1_max_len": 6 if q else 8,
-        "aseq2_max_len": 4 if q else 7,
+        "aseq2_max_len": 4 if q else 6,
         "aseq2f_max_len": 3 if q else 5,
         "aseq3_max_len": 2 if q else 3,
         "aseq3f_max_len": 1 if q else 2,
